@@ -57,10 +57,11 @@ def main():
     ok = all(meta["confirmed"].values())
     print(f"{prop} {tag}m{n}: confirmation {meta['confirmed']}")
     # --- our checks against /repo with the change
-    rc, o = sh("git status --porcelain", "/repo")
+    REPO = os.environ.get("VERIF_REPO", "/repo")
+    rc, o = sh("git status --porcelain", REPO)
     if o.strip():
-        print("/repo is not clean:", o); return 2
-    rc, o = sh(f"git apply {diff}", "/repo")
+        print(REPO, "is not clean:", o); return 2
+    rc, o = sh(f"git apply {diff}", REPO)
     if rc != 0:
         print("patch does not apply to /repo:", o); return 2
     try:
@@ -73,7 +74,7 @@ def main():
             meta["checks_run"][c] = {"exit": rc, "violations": len(viol), "first_counterexamples": cex, "notes": inc, "wall_s": round(time.time() - t0, 1), "tier": tier}
             print(f"  check {c} ({tier}): exit={rc} violations={len(viol)} {cex[:1]} {inc[:1]} {time.time()-t0:.0f}s")
     finally:
-        sh("git checkout -- .", "/repo")
+        sh("git checkout -- .", REPO)
     sd = f"/verif/seeded/{prop}-{tag}m{n}"
     os.makedirs(sd, exist_ok=True)
     shutil.copy(diff, f"{sd}/patch.diff")
